@@ -91,7 +91,23 @@ func allSettings() []settings {
 }
 
 func randSettings(r *rand.Rand) settings {
-	return settings{r.Intn(2) == 0, r.Intn(2) == 0, r.Intn(2) == 0, r.Intn(2) == 0, r.Intn(2) == 0, []string{"-", "all", "even", "nil"}[r.Intn(4)]}
+	return settings{r.Intn(2) == 0, r.Intn(2) == 0, r.Intn(2) == 0, r.Intn(2) == 0, r.Intn(2) == 0, []string{"-", "all", "even", "nil", "m64a", "m64b"}[r.Intn(6)]}
+}
+
+// listens: does a listener factory of class lst attach a listener to the function with this index?  m64a / m64b:
+// every 64th function (index = 3 mod 64) / only the first of them: two selections that differ only beyond index 63.
+func listens(lst string, idx int) bool {
+	switch lst {
+	case "all":
+		return true
+	case "even":
+		return idx%2 == 0
+	case "m64a":
+		return idx%64 == 3
+	case "m64b":
+		return idx == 3
+	}
+	return false
 }
 
 // otherFor picks the second runtime's settings: half of the time in the same key class (same listener
@@ -145,8 +161,14 @@ func lattice(r *rand.Rand, thorough bool) []point {
 	for _, m := range modes {
 		pts = append(pts, point{settings: settings{Lst: "nil"}, Cache: m, Other: none})
 	}
+	// listener selections that differ only beyond the 64th function: warm disk cache written under the one, read under
+	// the other, and both orders on a shared in-memory cache
+	for _, pr := range [][2]string{{"m64a", "m64b"}, {"m64b", "m64a"}} {
+		pts = append(pts, point{settings: settings{Lst: pr[0]}, Cache: "diskwarm", Other: settings{Lst: pr[1]}})
+		pts = append(pts, point{settings: settings{Lst: pr[0]}, Cache: "shared", Order: orders[0], Other: settings{Lst: pr[1]}})
+	}
 	// warm disk cache written under the SAME settings (a true cache hit), for every listener class
-	for _, l := range []string{"-", "all", "even", "nil"} {
+	for _, l := range []string{"-", "all", "even", "nil", "m64a"} {
 		pts = append(pts, point{settings: settings{Lst: l}, Cache: "diskwarm", Other: settings{Lst: l}})
 		pts = append(pts, point{settings: settings{Lst: l, CloseCtx: true}, Cache: "diskwarm", Other: settings{Lst: l, CloseCtx: true}})
 	}
@@ -185,12 +207,11 @@ func makeAlloc(cap, max uint64) experimental.LinearMemory {
 // lrec counts listener events of one factory.
 type lrec struct {
 	before, after, abort atomic.Int64
-	even                 bool
-	decline              bool
+	lst                  string
 }
 
 func (l *lrec) NewFunctionListener(d api.FunctionDefinition) experimental.FunctionListener {
-	if l.decline || l.even && d.Index()%2 == 1 {
+	if !listens(l.lst, int(d.Index())) {
 		return nil
 	}
 	return l
@@ -232,7 +253,7 @@ func newSide(eng string, s settings, limit uint32, cache wazero.CompilationCache
 		ctx = experimental.WithMemoryAllocator(ctx, experimental.MemoryAllocatorFunc(makeAlloc))
 	}
 	if s.Lst != "-" {
-		sd.rec = &lrec{even: s.Lst == "even", decline: s.Lst == "nil"}
+		sd.rec = &lrec{lst: s.Lst}
 		ctx = experimental.WithFunctionListenerFactory(ctx, sd.rec)
 	}
 	sd.ctx = ctx
@@ -669,7 +690,7 @@ func latticePhase(r *rand.Rand) {
 							// listeners are created per LOCAL function; the factory sees the function index in the
 							// function index space (imports first)
 							idx := i + importCount(j.p)
-							if j.pt.Lst == "nil" || j.pt.Lst == "even" && idx%2 == 1 {
+							if !listens(j.pt.Lst, idx) {
 								sb.WriteByte('n')
 							} else {
 								sb.WriteByte('1')
@@ -878,7 +899,7 @@ func historiesPhase(r *rand.Rand) {
 			x.ctx = context.Background()
 			if hasL {
 				x.lst = i + 1
-				x.rec = &lrec{}
+				x.rec = &lrec{lst: "all"}
 				x.ctx = experimental.WithFunctionListenerFactory(x.ctx, x.rec)
 			}
 			x.rt = wazero.NewRuntimeWithConfig(x.ctx, rc)
